@@ -94,9 +94,34 @@ class BuildError(Exception):
     pass
 
 
+_SCALED_TLS = (("TLS_MAX_PLAINTEXT_SIZE", "16"), ("TLS_MAX_COMPRESSED_SIZE", "24"), ("TLS_MAX_CIPHERTEXT_SIZE", "32"), ("TLS_MAX_CERTIFICATES_SIZE", "32"))
+
+
+def scaled_tls_dir(bdir):
+    """M6 at the level of the type definitions: a copy of /repo's current include/gmssl/tls.h with the size constants scaled down, so that
+    TLS_CONNECT's buffers are small arrays as well (the -include shim tls_scale.h only rescales code that uses the macros after the header)."""
+    d = os.path.join(bdir, "scaled_tls")
+    with _lock:
+        dst = os.path.join(d, "gmssl", "tls.h")
+        if not os.path.exists(dst):
+            txt = open(os.path.join(REPO, "include", "gmssl", "tls.h")).read()
+            for name, val in _SCALED_TLS:
+                txt, n = re.subn(r"(?m)^(#define\s+%s\s+).*$" % name, lambda m: m.group(1) + val, txt)
+                if n != 1:
+                    raise BuildError("scaled tls.h: expected exactly one definition of %s, found %d" % (name, n))
+            os.makedirs(os.path.dirname(dst), exist_ok=True)
+            with open(dst, "w") as f:
+                f.write(txt)
+    return d
+
+
 def goto_cc_compile(src, out, defs, quiet=True, extra_inc=(), shims=()):
-    cmd = ["goto-cc", "-I", os.path.join(REPO, "include"), "-I", os.path.join(VERIF, "include"),
-           "-I", os.path.join(VERIF, "models")]
+    cmd = ["goto-cc"]
+    if "@scaled_tls" in shims:
+        cmd += ["-I", scaled_tls_dir(os.path.dirname(out))]
+        shims = [x for x in shims if x != "@scaled_tls"]
+    cmd += ["-I", os.path.join(REPO, "include"), "-I", os.path.join(VERIF, "include"),
+            "-I", os.path.join(VERIF, "models")]
     for i in extra_inc:
         cmd += ["-I", i]
     if quiet:
